@@ -284,6 +284,16 @@ func e2eFormsWorker(args []string) error {
 			use("appZ")
 		}
 
+		if rng.Intn(3) == 0 {
+			// a request without any application withdraws every PFD: the names are unknown again
+			w.Pfd("p1", nil)
+			sum.Stats["pfd_withdraw_all"]++
+
+			for _, n := range names {
+				use(n)
+			}
+		}
+
 		if rng.Intn(2) == 0 {
 			// application id together with an inline filter
 			f := mkFlow("out")
